@@ -8,7 +8,10 @@ import subprocess
 import sys
 
 out = {}
+skip = set(sys.argv[1:])          # e.g. C01 C02: properties whose mutants were already re-run
 for meta in sorted(glob.glob("/verif/seeded/C*/mutant*/meta.json")):
+    if os.path.basename(os.path.dirname(os.path.dirname(meta))) in skip:
+        continue
     d = os.path.dirname(meta)
     m = json.load(open(meta))
     pid = os.path.basename(os.path.dirname(d))
